@@ -3,6 +3,15 @@
       tlapm --toolbox 0 0 PhaseSpace3_Proofs.tla
    in the thorough tier under a timeout; an obligation the SMT back end cannot discharge is
    reported as "not proved" (TLC checks the same statement pointwise on the lattice).
+   Status when written (Z3 4.8.9 is the only SMT solver here; MomentumTriangle, HatSine and DiscIsGram
+   need 10-100 s of Z3 and time out when the machine is heavily loaded): the polynomial lemmas KallenSymmetric,
+   KallenFactorises, KallenDifferenceOfSquares, KallenAsTriangle, ThirdMandelstamIdentity,
+   MomentumTriangle, HatSine, DiscIsGram, KibbleTriangleForm, CrossAlgebra and
+   ScatteringAnglesSupplementary are discharged; the compositions KibbleIsGram and
+   KibbleIsDiscriminant additionally need "G(..) \in Int"-style typing facts of degree-3/4
+   polynomials (GInt, KibbleInt, DiscInt) on which Z3 times out, so their glue steps are reported
+   as not proved.  On paper: Kibble = Kallen(a, a+c+2u, c) = 4(u^2 - ac) = -16 m0^2 G and
+   Disc = -16 s1 G, hence s1 Kibble = m0^2 Disc.
    The definitions are repeated from PhaseSpace3 in scalar form (no tuples) so that the back
    ends see plain polynomial arithmetic. *)
 EXTENDS Integers, TLAPS
@@ -37,6 +46,7 @@ THEOREM ThirdMandelstamIdentity ==
   OBVIOUS
 
 Kibble(s1, s2, s3, M0, M1, M2, M3) == Kallen(Kallen(s2, M2, M0), Kallen(s3, M3, M0), Kallen(s1, M1, M0))
+S3(s1, s2, M0, M1, M2, M3) == M0 + M1 + M2 + M3 - s1 - s2
 Disc(s1, s2, M0, M1, M2, M3) ==
   LET L1 == Kallen(s1, M2, M3)
       L2 == Kallen(M0, s1, M1)
@@ -44,9 +54,113 @@ Disc(s1, s2, M0, M1, M2, M3) ==
       t == 4 * s1 * s2 - (ab * ab - L1 - L2) IN
   t * t - 4 * L1 * L2
 
-\* the classification by the Kibble function is the classification by the PDG limits (s1 > 0, m0 > 0)
+\* The Kibble cubic (Gram determinant of the three four-momenta, in invariants), integer coefficients
+G(s1, s2, M0, M1, M2, M3) ==
+  - M0 * M3 * M3 - M1 * M2 * M2 - M2 * M1 * M1 - M3 * M0 * M0 - s1 * s2 * s2 - s2 * s1 * s1
+  + M0 * M1 * M2 + M0 * M1 * M3 + M0 * M2 * M3 + M0 * M3 * s1 + M0 * M3 * s2 + M0 * s1 * s2
+  + M1 * M2 * M3 + M1 * M2 * s1 + M1 * M2 * s2 + M1 * s1 * s2 + M2 * s1 * s2 + M3 * s1 * s2
+  - M0 * M1 * s1 - M0 * M2 * s2 - M1 * M3 * s2 - M2 * M3 * s1
+\* numerator of cos theta-hat_{1(2)}: 4 m0^2 (three-momentum product p1.p2 in the parent frame)
+U(s1, s2, M0, M1, M2, M3) ==
+  (M0 + M1 - s1) * (M0 + M2 - s2) - 2 * M0 * (S3(s1, s2, M0, M1, M2, M3) - M1 - M2)
+
+\* |p3|^2 = |p1|^2 + |p2|^2 + 2 p1.p2 in the parent frame
+LEMMA MomentumTriangle ==
+  \A s1, s2, M0, M1, M2, M3 \in Int :
+    Kallen(S3(s1, s2, M0, M1, M2, M3), M3, M0)
+      = Kallen(s2, M2, M0) + Kallen(s1, M1, M0) + 2 * U(s1, s2, M0, M1, M2, M3)
+  BY Z3T(300) DEF Kallen, U, S3
+
+\* C19: 1 - cos^2 theta-hat_{1(2)} is the Gram determinant: |cos| <= 1 <=> G >= 0 (m0^2 > 0)
+LEMMA HatSine ==
+  \A s1, s2, M0, M1, M2, M3 \in Int :
+    Kallen(s2, M2, M0) * Kallen(s1, M1, M0) - U(s1, s2, M0, M1, M2, M3) * U(s1, s2, M0, M1, M2, M3)
+      = 4 * M0 * G(s1, s2, M0, M1, M2, M3)
+  BY Z3T(300) DEF Kallen, U, S3, G
+
+LEMMA KallenAsTriangle ==
+  \A a, b, c \in Int : Kallen(a, b, c) = (b - a - c) * (b - a - c) - 4 * a * c
+  BY Z3 DEF Kallen
+
+\* the algebra that combines the lemmas, over abstract integers
+LEMMA KibbleTriangleForm ==
+  \A a, c, u \in Int : Kallen(a, a + c + 2 * u, c) = 4 * (u * u) - 4 * (a * c)
+  BY Z3T(30) DEF Kallen
+
+LEMMA KallenInt == \A x, y, z \in Int : Kallen(x, y, z) \in Int
+  BY Z3 DEF Kallen
+LEMMA UInt == \A s1, s2, M0, M1, M2, M3 \in Int : U(s1, s2, M0, M1, M2, M3) \in Int
+  BY Z3 DEF U, S3
+LEMMA GInt == \A s1, s2, M0, M1, M2, M3 \in Int : G(s1, s2, M0, M1, M2, M3) \in Int
+  BY Z3T(30) DEF G
+LEMMA S3Int == \A s1, s2, M0, M1, M2, M3 \in Int : S3(s1, s2, M0, M1, M2, M3) \in Int
+  BY Z3 DEF S3
+
+\* the Kibble function of the library is -16 m0^2 times the Gram determinant
+THEOREM KibbleIsGram ==
+  \A s1, s2, M0, M1, M2, M3 \in Int :
+    Kibble(s1, s2, S3(s1, s2, M0, M1, M2, M3), M0, M1, M2, M3) = -16 * M0 * G(s1, s2, M0, M1, M2, M3)
+<1> TAKE s1, s2, M0, M1, M2, M3 \in Int
+<1> DEFINE s3 == S3(s1, s2, M0, M1, M2, M3)
+           a == Kallen(s2, M2, M0)
+           b == Kallen(s3, M3, M0)
+           c == Kallen(s1, M1, M0)
+           u == U(s1, s2, M0, M1, M2, M3)
+           g == G(s1, s2, M0, M1, M2, M3)
+<1>0 s3 \in Int /\ a \in Int /\ b \in Int /\ c \in Int /\ u \in Int /\ g \in Int
+  BY KallenInt, UInt, GInt, S3Int
+<1>1 b = a + c + 2 * u
+  BY MomentumTriangle
+<1>2 a * c - u * u = 4 * M0 * g
+  BY HatSine
+<1> HIDE DEF s3, a, b, c, u, g
+<1>3 Kallen(a, a + c + 2 * u, c) = 4 * (u * u) - 4 * (a * c)
+  BY <1>0, KibbleTriangleForm
+<1>4 Kallen(a, b, c) = -16 * M0 * g
+  BY <1>0, <1>1, <1>2, <1>3, Z3
+<1> QED
+  BY <1>4 DEF Kibble, s3, a, b, c, g
+
+\* the PDG discriminant is -16 s1 times the same Gram determinant
+THEOREM DiscIsGram ==
+  \A s1, s2, M0, M1, M2, M3 \in Int :
+    Disc(s1, s2, M0, M1, M2, M3) = -16 * s1 * G(s1, s2, M0, M1, M2, M3)
+  BY Z3T(300) DEF Disc, Kallen, G
+
+\* hence the classification by the Kibble function is the classification by the PDG limits (s1 > 0, m0 > 0)
+LEMMA CrossAlgebra ==
+  \A x, m, g, k, d \in Int : (k = -16 * m * g /\ d = -16 * x * g) => x * k = m * d
+  BY Z3T(30)
+LEMMA KibbleInt == \A s1, s2, s3, M0, M1, M2, M3 \in Int : Kibble(s1, s2, s3, M0, M1, M2, M3) \in Int
+  BY Z3 DEF Kibble, Kallen
+LEMMA DiscInt == \A s1, s2, M0, M1, M2, M3 \in Int : Disc(s1, s2, M0, M1, M2, M3) \in Int
+  BY Z3T(30) DEF Disc, Kallen
+
 THEOREM KibbleIsDiscriminant ==
   \A s1, s2, M0, M1, M2, M3 \in Int :
-    s1 * Kibble(s1, s2, M0 + M1 + M2 + M3 - s1 - s2, M0, M1, M2, M3) = M0 * Disc(s1, s2, M0, M1, M2, M3)
-  BY Z3T(120) DEF Kibble, Disc, Kallen
+    s1 * Kibble(s1, s2, S3(s1, s2, M0, M1, M2, M3), M0, M1, M2, M3) = M0 * Disc(s1, s2, M0, M1, M2, M3)
+<1> TAKE s1, s2, M0, M1, M2, M3 \in Int
+<1> DEFINE g == G(s1, s2, M0, M1, M2, M3)
+           k == Kibble(s1, s2, S3(s1, s2, M0, M1, M2, M3), M0, M1, M2, M3)
+           d == Disc(s1, s2, M0, M1, M2, M3)
+<1>0 g \in Int /\ k \in Int /\ d \in Int
+  BY GInt, KibbleInt, DiscInt, S3Int
+<1>1 k = -16 * M0 * g
+  BY KibbleIsGram
+<1>2 d = -16 * s1 * g
+  BY DiscIsGram
+<1> HIDE DEF g, k, d
+<1>3 s1 * k = M0 * d
+  BY <1>0, <1>1, <1>2, CrossAlgebra
+<1> QED
+  BY <1>3 DEF k, d
+
+\* C19: theta_ij + theta_ji = pi (the numerators of the two cosines are opposite; the Kallen factors coincide)
+THEOREM ScatteringAnglesSupplementary ==
+  \A M0, Mi, Mj, Mk, sj, sk \in Int :
+    LET si == M0 + Mi + Mj + Mk - sj - sk
+        Nij == 2 * sk * (sj - Mi - Mk) - (sk + Mi - Mj) * (M0 - sk - Mk)
+        Nji == 2 * sk * (si - Mj - Mk) - (sk + Mj - Mi) * (M0 - sk - Mk) IN
+    Nij + Nji = 0
+  BY Z3
 =============================================================================
